@@ -759,6 +759,18 @@ func (fc *FnCtx) execGo(fr *frame, st *State, x *ssa.Go) {
 func (fc *FnCtx) execSend(fr *frame, st *State, x *ssa.Send) {
 	ch := fc.val(x.Chan)
 	fc.hookChan(st, "send", ch, x.Pos())
+	// anchor "send#k": k-th channel send of the function; `sent` is the value sent
+	n := 0
+	for _, b := range fc.curFn.Blocks {
+		for _, in := range b.Instrs {
+			if sd, ok := in.(*ssa.Send); ok {
+				if sd == x {
+					fc.pointClausesV(st, "after_call", fmt.Sprintf("send#%d", n), x.Pos(), map[string]Val{"sent": fc.val(x.X)})
+				}
+				n++
+			}
+		}
+	}
 }
 
 func (fc *FnCtx) execRecv(st *State, x *ssa.UnOp, ch Val) Val {
@@ -781,6 +793,20 @@ func (fc *FnCtx) execSelect(fr *frame, st *State, x *ssa.Select) {
 	}
 	fc.assume(st, and(app("<=", lo, idx.T), app("<", idx.T, fmt.Sprint(len(x.States)))))
 	vs = append(vs, idx)
+	// anchor "select#k": k-th select of the function; `selidx` is the index of the case taken
+	{
+		n := 0
+		for _, b := range fc.curFn.Blocks {
+			for _, in := range b.Instrs {
+				if sl, ok := in.(*ssa.Select); ok {
+					if sl == x {
+						fc.pointClausesV(st, "after_call", fmt.Sprintf("select#%d", n), x.Pos(), map[string]Val{"selidx": idx})
+					}
+					n++
+				}
+			}
+		}
+	}
 	for i := 1; i < tup.Len(); i++ {
 		vs = append(vs, fc.fresh(st, "selv", tup.At(i).Type()))
 	}
